@@ -80,6 +80,7 @@ def run(prog, chk):
     from props import strops
     chk.rule(strops.check_for, prog, chk, "C04")
     chk.rule(strops.blank_only_separators, prog, chk)  # a pair / list cut at blanks is cut at tabs and newlines too
+    chk.rule(strops.empty_test_before_trim, prog, chk)  # pieces are tested for emptiness after trimming, not before
     chk.rule(strops.check_number_formatting, prog, chk)  # results are exact up to the 3-decimal *output* rounding  # A14.str-ops: how this property's strings are cut up is a reviewed, frozen inventory
 
 
